@@ -470,7 +470,8 @@ def api(g, cx, op, st):
     elif c == "linear_paths":
         o = cx.call("gfa.linear_paths()", g.linear_paths)
     elif c == "multiply":
-        sn = core.call(lambda: list(g.segment_names))
+        # (only strings: the property quantifies over strings; an unnamed segment is listed under a number)
+        sn = core.call(lambda: [x for x in g.segment_names if isinstance(x, str)])
         if sn.ok and sn.value and op["li"] % 3 != 1:
             # (the name of a segment of the document, whatever it looks like)
             a = sn.value[op["li"] % len(sn.value)]
